@@ -5,12 +5,16 @@ import MetricsVerif.Model.Tracing
 Line protocol of component `tracing` (C17).
 
     tracing filter all | allow <names> | custom <mod> <rem>     → ok            (fresh subscriber + recorder)
-    tracing new <thread> <r|c|span#> <fields>                   → <span#> <map>
+    tracing new <thread> <r|c|span#> <fields> [<slot>]          → <span#> <map>   (slot = the registry slot the real span
+                                                                  got; bad-op when a live span occupies it or the
+                                                                  map read through the slot differs)
     tracing rec <thread> <span#> <fields>                       → <map>
     tracing enter <thread> <span#>   /  exit <thread> <span#>   → <current span# of the thread | ~>
     tracing emit <thread> <name> <labels>                       → <labels the inner recorder saw>
     tracing close <thread> <span#>                              → closed     (last handle dropped; bad-op when the span
                                                                   is on a stack of threads 0..15 or has a live child)
+    tracing filt <name> <key> <value>                          → 0 | 1      (`LabelFilter::should_include_label` of the
+                                                                  subscriber's filter, called directly on any label)
     tracing nolayer                                             → ok         (the subscriber has no MetricsLayer:
                                                                   spans answer `no-labels`, keys pass unchanged)
 
@@ -26,6 +30,7 @@ structure DSt where
   filter : Filter
   p : PState := {}
   hasLayer : Bool := true
+  r : RState := {}                      -- the same subscriber, `Labels` stored in and read through registry slots
 
 /-- the pool a new subscriber finds: what the previous one (with a layer) left behind -/
 def carry (d : Option DSt) : List FMap :=
@@ -97,6 +102,18 @@ def handle (d : Option DSt) (args : List String) : Option (Option DSt × String)
         pure (some { d with p := p' }, s!"{n} {showMap m}")
       else
         pure (some { d with p := pNewSpanNoLayer p t par }, s!"{n} no-labels")
+    | "new", [t, par, fields, slot] => do
+      let t ← t.toNat?
+      let par ← parentTok p par
+      let fields ← fieldsTok fields
+      let slot ← slot.toNat?
+      if d.hasLayer && legal d.r (.new t par fields slot) then
+        let p' := pstep p (.base (.newSpan t par fields))
+        let r' := rstep d.r (.new t par fields slot)
+        let m ← p'.base.spans[n]?
+        -- the map as the code reads it: through the slot
+        if r'.ext slot == some m then pure (some { d with p := p', r := r' }, s!"{n} {showMap m}") else none
+      else none
     | "rec", [t, id, fields] => do
       let t ← t.toNat?
       let id ← id.toNat?
@@ -104,8 +121,11 @@ def handle (d : Option DSt) (args : List String) : Option (Option DSt × String)
       if live p id then
         if d.hasLayer then
           let p' := pstep p (.base (.record t id fields))
+          let r' := rstep d.r (.record t id fields)
           let m ← p'.base.spans[id]?
-          pure (some { d with p := p' }, showMap m)
+          if d.r.base.spans.isEmpty || r'.ext (r'.slotOf id) == some m then
+            pure (some { d with p := p', r := r' }, showMap m)
+          else none
         else pure (some d, "no-labels")
       else none
     | "enter", [t, id] => do
@@ -113,27 +133,36 @@ def handle (d : Option DSt) (args : List String) : Option (Option DSt × String)
       let id ← id.toNat?
       if live p id then
         let p' := pstep p (.base (.enter t id))
-        pure (some { d with p := p' }, showCur (current p'.base t))
+        pure (some { d with p := p', r := rstep d.r (.enter t id) }, showCur (current p'.base t))
       else none
     | "exit", [t, id] => do
       let t ← t.toNat?
       let id ← id.toNat?
       if live p id then
         let p' := pstep p (.base (.exit t id))
-        pure (some { d with p := p' }, showCur (current p'.base t))
+        pure (some { d with p := p', r := rstep d.r (.exit t id) }, showCur (current p'.base t))
       else none
     | "close", [t, id] => do
       let _ ← t.toNat?
       let id ← id.toNat?
       if live p id && !pinned p 16 id then
-        if d.hasLayer then pure (some { d with p := pstep p (.close id) }, "closed")
+        if d.hasLayer then pure (some { d with p := pstep p (.close id), r := rstep d.r (.close id) }, "closed")
         else pure (some { d with p := { p with closed := id :: p.closed } }, "closed")
       else none
     | "emit", [t, name, labels] => do
       let t ← t.toNat?
       let name ← unhexChars name
       let labels ← labelsTok labels
-      pure (some d, showMap (emitCfg d.hasLayer p.base d.filter t name labels))
+      let viaP := emitCfg d.hasLayer p.base d.filter t name labels
+      -- when the slots were tracked, the key as the code computes it: current span's labels read from its slot
+      if d.hasLayer && !d.r.base.spans.isEmpty && d.r.base.spans.length == p.base.spans.length
+          && rEmit d.r d.filter t name labels != viaP then none
+      else pure (some d, showMap viaP)
+    | "filt", [name, k, v] => do
+      let name ← unhexChars name
+      let k ← unhexChars k
+      let v ← unhexChars v
+      pure (some d, if d.filter.shouldInclude name k v then "1" else "0")
     | _, _ => none
   | _ => none
 
